@@ -104,3 +104,29 @@ Theorem C01_diffu_header_after_hunk : forall body c0, must_count c0 = true ->
   three_dashes_expected (after code_counted (arm c0 (n_counted is_old body)) body) = true /\
   must_count (after code_counted (arm c0 (n_counted is_old body)) body) = true.
 Proof. intros body c0. exact (after_hunk_header_expected code_counted body c0 (proj1 C01_code_counts_old_lines)). Qed.
+
+From DV Require Import MergeConflict MergeConflictFacts GenMerge MergeConflictInst.
+
+(* Merge-conflict regions of a combined diff (src/handlers/merge_conflict.rs).  `clear()` empties all
+   three buffers (read from the source on every run) ... *)
+Theorem C01_conflict_buffers_all_cleared : forall d, code_cleared d = true.
+Proof. exact code_all_cleared. Qed.
+
+(* ... so for every stream of hunk lines and well-formed conflict regions (any number of regions, any
+   number of lines on each side, with or without an ancestor section), each region is shown as
+   exactly its own two comparisons against the ancestor — ancestor lines once per comparison, each
+   side's lines once, in input order, nothing left over from an earlier region — every other line
+   goes on to the hunk-line handler in input order, and no line stays in a buffer. *)
+Theorem C01_conflict_regions_shown : forall is,
+  Forall (item_ok text code_classify) is ->
+  code_run (concat (map (item_lines text) is))
+  = Build_st text Outside [] [] [] (concat (map (item_shown text) is)).
+Proof. intros is. exact (regions_shown text code_classify code_cleared code_all_cleared is). Qed.
+
+(* the hypothesis on `clear()` is necessary: a `clear()` that leaves the ancestral buffer alone shows
+   the first region's ancestor lines again in the second *)
+Theorem C01_conflict_stale_buffer_refuted :
+  let is := [IRegion nat (reg 10 11 12); IRegion nat (reg 20 21 22)] in
+  Forall (item_ok nat cl) is /\
+  outp nat (run nat cl leaky (concat (map (item_lines nat) is))) <> concat (map (item_shown nat) is).
+Proof. exact stale_ancestor_shown_again. Qed.
